@@ -133,6 +133,54 @@ Definition cfuns (d1 d2 : nat) (n : option nat) (t : ctape) (f : fname) (_ : nat
   | _, _ => ([], [], [])
   end.
 
+(* ---- round 7: the hypotheses of C05_range_finder_covers evaluated on the recorded run (tolerance 1e-7: the witness C comes from a least-squares solve) ----
+   The model's own final_test_g (= Proofs/SvdRandE2E.v final_test at Rops, final_test_g_real) names the LAST tl.qr call and the test matrix P;
+   X = A @ P is the last sketch (it must be the recorded argument of that call: lookup_qr), Qx its recorded Q factor.  Checked:
+   qr_ok (shape, Qx^T Qx = I, X = Qx (Qx^T X)), spans with the witness Cw supplied by the harness (A = X Cw), the conclusion A = Qx (Qx^T A),
+   and that the model's range finder returns exactly Qx. *)
+Definition sk_tol : Q := Qmake 1 10000000.
+Definition is_rect (r c : nat) (X : qmat) : bool := Nat.eqb (length X) r && forallb (fun row => Nat.eqb (length row) c) X.
+Definition ident (c : nat) : qmat := map (fun a => map (fun b => if Nat.eqb a b then 1 else 0) (seq 0 c)) (seq 0 c).
+Definition sketch_ok (d1 d2 : nat) (n : option nat) (n_over n_iter : nat) (M G : qmat) (qrs : list (qmat * qmat)) (Cw : qmat) : bool :=
+  let '(k, mn, mx) := svd_checks d1 d2 n in
+  let n_dims := Nat.min (k + n_over) mx in
+  let t := Nat.min mn n_dims in
+  let tr := ((d2 <? d1) && (t <? k)) || ((d1 <? d2) && (k <? t)) in
+  let A := if tr then transp Qops d2 M else M in
+  let r := if tr then d2 else d1 in
+  let cA := if tr then d1 else d2 in
+  let '(idx, P) := final_test_g Qops (lookup_qr qrs) A cA G n_iter in
+  let w := ncols P in
+  let X := mmul Qops w A P in
+  let Qx := lookup_qr qrs idx X in
+  let c := Nat.min r w in
+  let Qt := transp Qops c Qx in
+  is_rect r c Qx && is_rect w cA Cw
+  && mat_close sk_tol sk_tol (mmul Qops c Qt Qx) (ident c)
+  && mat_close sk_tol sk_tol X (mmul Qops w Qx (mmul Qops w Qt X))
+  && mat_close sk_tol sk_tol A (mmul Qops cA X Cw)
+  && mat_close sk_tol sk_tol A (mmul Qops cA Qx (mmul Qops cA Qt A))
+  && mat_eqb (range_finder Qops (lookup_qr qrs) A cA G n_iter) Qx.
+
+(* complex oracles: tl.qr by call order, tl.svd by argument *)
+Definition clookup_qr (tape : list (cmat * cmat)) (k : nat) (X : cmat) : cmat :=
+  match nth_error tape k with
+  | Some (Xin, Qout) => if cmat_close lookup_tol lookup_tol Xin X then Qout else []
+  | None => []
+  end.
+Definition clookup_svd (tape : list (cmat * triple C * triple C)) (X : cmat) (full : bool) : triple C :=
+  match find (fun e => cmat_close lookup_tol lookup_tol (fst (fst e)) X) tape with
+  | Some (_, a, b) => if full then a else b
+  | None => ([], [], [])
+  end.
+(* complex request with a mask, method truncated_svd: LAPACK's two answers for the matrix of every back-end call, by call order *)
+Definition cmfuns (d1 d2 : nat) (n : option nat) (tape : list (cmat * triple C * triple C)) (f : fname) (k : nat) (M' : cmat) : triple C :=
+  match f, nth_error tape k with
+  | FTruncated, Some (Min, a, b) =>
+      if cmat_close lookup_tol lookup_tol Min M' then truncated_svd (fun fl : bool => if fl then a else b) d1 d2 n else ([], [], [])
+  | _, _ => ([], [], [])
+  end.
+
 Inductive dcase :=
 | DFlip (id : nat) (U V : qmat) (ub : bool) (eU eV : qmat)
 | DSymeig (id : nat) (d1 d2 : nat) (n : option nat) (M Gin : qmat) (lam : list Q) (W : qmat) (expected : triple Q)
@@ -140,7 +188,13 @@ Inductive dcase :=
           (qrs : list (qmat * qmat)) (svds : list (qmat * triple Q * triple Q)) (expected : triple Q)
 | DFlipC (id : nat) (U V : cmat) (ub : bool) (eU eV : cmat)
 | DIfaceC (id : nat) (d1 d2 : nat) (meth : method) (n : option nat) (flip ub : bool) (M : cmat) (t : ctape) (expected : res (triple C))
-| DReject (id : nat) (shape : list nat) (meth : method) (nn : nnreq) (rejected : bool).
+| DReject (id : nat) (shape : list nat) (meth : method) (nn : nnreq) (rejected : bool)
+(* round 7 *)
+| DSketch (id : nat) (d1 d2 : nat) (n : option nat) (n_over n_iter : nat) (M G : qmat) (qrs : list (qmat * qmat)) (Cw : qmat)
+| DRandomC (id : nat) (d1 d2 : nat) (n : option nat) (n_over n_iter : nat) (M G : cmat)
+           (qrs : list (cmat * cmat)) (svds : list (cmat * triple C * triple C)) (expected : triple C)
+| DIfaceCM (id : nat) (d1 d2 : nat) (n : option nat) (flip ub : bool) (M mask : cmat) (iters : nat)
+           (tape : list (cmat * triple C * triple C)) (expected : res (triple C)).
 
 Definition ctol_a : Q := Qmake 1 1000000000.
 Definition ctol_r : Q := Qmake 1 1000000.
@@ -161,10 +215,20 @@ Definition dagree (c : dcase) : bool :=
       | _, _ => false
       end
   | DReject _ shape meth nn rejected => Bool.eqb (request_rejected shape meth nn) rejected
+  | DSketch _ d1 d2 n n_over n_iter M G qrs Cw => sketch_ok d1 d2 n n_over n_iter M G qrs Cw
+  | DRandomC _ d1 d2 n n_over n_iter M G qrs svds e =>
+      ctriple_close ctol_a ctol_r (randomized_svd_conj Cops cconj (clookup_svd svds) (clookup_qr qrs) G M d1 d2 n n_over n_iter) e
+  | DIfaceCM _ d1 d2 n flip ub M mask iters tape e =>
+      match svd_interface_cmask Cops (svd_flip_c qsqrt) (cmfuns d1 d2 n tape) MTruncated d2 M n flip ub (Some mask) iters, e with
+      | Ok a, Ok b => ctriple_close ctol_a ctol_r a b
+      | Err, Err => true
+      | _, _ => false
+      end
   end.
 Definition dident (c : dcase) : nat :=
   match c with
   | DFlip i _ _ _ _ _ => i | DSymeig i _ _ _ _ _ _ _ _ => i | DRandom i _ _ _ _ _ _ _ _ _ _ => i
   | DFlipC i _ _ _ _ _ => i | DIfaceC i _ _ _ _ _ _ _ _ _ => i | DReject i _ _ _ _ => i
+  | DSketch i _ _ _ _ _ _ _ _ _ => i | DRandomC i _ _ _ _ _ _ _ _ _ _ => i | DIfaceCM i _ _ _ _ _ _ _ _ _ _ => i
   end.
 Definition dfailing := failing_ids dagree dident.
